@@ -291,6 +291,10 @@ class Reporter:
                 if kf['id'] not in [k['id'] for k in self.known_hits]:
                     self.known_hits.append(kf)
                 return 'known'
+        if len(self.violations) >= 12:      # enough replays; keep counting only
+            self.violations.append({'key': key, 'what': what, 'replay': self.violations[-1]['replay'],
+                                    'no_input': no_input})
+            return 'new'
         d = os.path.join(ROOT, 'replays', self.pid)
         os.makedirs(d, exist_ok=True)
         path = os.path.join(d, '%d.json' % len(self.violations))
